@@ -16,7 +16,9 @@ def pool():
     st = [s(""), s("a"), s("A"), s("ab"), s("aB"), s("AB"), s("a b"), s('a"b'), s("1"), s("true"),
           # characters that are NOT letters and differ only in the bit that separates upper from lower case: equal under no comparison
           s("a[0]"), s("A{0}"), s("a^b"), s("A~B"), s("@x"), s("`X"), s("a\\b"), s("A|B"), s("]"), s("}")]
-    co = [code(n) for n in ("{}", "{0}", "{-0}", "{1}", '{"a"}', '{"A"}', "{a}", "{A}", "{x = 1}", "{1 + 1}", "{0; 1}", "{-0; 1}")]
+    co = [code(n) for n in ("{}", "{0}", "{-0}", "{1}", '{"a"}', '{"A"}', "{a}", "{A}", "{x = 1}", "{1 + 1}", "{0; 1}", "{-0; 1}",
+                            # variable names of which one is a prefix of the other (either operand order must give the same answer)
+                            "{_i + 1}", "{_idx + 1}", "{hits}", "{hitsTotal}", "{n = 1}", "{num = 1}")]
     ar = [arr(), arr(num(0)), arr(NEGZERO), arr(num(1)), arr(num(1), num(2)), arr(num(2), num(1)), arr(NIL), arr(num(1), NIL),
           arr(NIL, num(1)), arr(s("a")), arr(s("A")), arr(arr()), arr(arr(num(1))), arr(arr(num(1)), arr(num(2))), arr(arr(NIL)),
           arr(('N', 2)), arr(num(1), ('N', 3)), arr(code("{0}")), arr(code("{-0}")), arr(TRUE), arr(FALSE), arr(num(1), s("a"), arr(num(2))),
